@@ -21,7 +21,8 @@ import RuxModel.Model.Bind
       formam treats specially (`.`, `[`, the Go field names `V`, `Q`) are outside the modelled fragment;
     * validator (`<validator>` ≠ off): `V ≠ "" ∧ V ≠ "bad"` (`validate:"required|notIn:bad"`).
 -/
-namespace Rux.Drv
+namespace Rux.Drv.BindE
+open Rux.Drv
 open Rux.Bind
 
 def sourceStr : Source → String
@@ -162,4 +163,8 @@ def bindStep : List String → String
 
 def bindEngine : Engine := { σ := Unit, init := (), step := fun _ l => ((), bindStep l) }
 
+end Rux.Drv.BindE
+
+namespace Rux.Drv
+export BindE (bindEngine)
 end Rux.Drv
